@@ -320,7 +320,7 @@ func c18c(tp *tape.Tape) core.Result {
 	}
 	var stmts []string // top-level statements after the definitions; the last one's value is checked
 	var want string
-	tpl := tp.Draw(9)
+	tpl := tp.Draw(10)
 	key = key.Int(tpl).Int(w)
 	switch tpl {
 	case 0: // a generator yields a closure over its local; the consumer returns it out of the loop
@@ -362,6 +362,11 @@ func c18c(tp *tape.Tape) core.Result {
 		stmts = []string{fmt.Sprintf("outer(%d)", k), "{\n" + drawMid() + "\nouter(" + fmt.Sprint(k) + ")\n}"}
 		want = fmt.Sprint(k + 1)
 		r.Inc("C.closure_called_deeper", 1)
+	case 9: // three function literals deep: the innermost reads a name its grandparent binds; it sees the global (Readme: own, enclosing, global)
+		defs = append(defs, "ww = 100", "wf = (ww) -> (y) -> {\n"+pad(w)+"(z) -> ww + y + z\n}")
+		stmts = []string{fmt.Sprintf("ws = wf(%d)", k), "wt = ws(1)", "{\n" + drawMid() + "\nwt(2)\n}", "wt(2)"}
+		want = "103"
+		r.Inc("C.name_of_grandparent_function", 1)
 	case 8: // locals reach the iterator only through function literals written inside the iterator expression
 		a, b := 2+tp.Draw(5), 2+tp.Draw(5)
 		defs = append(defs, fmt.Sprintf("lam = (k, n) -> {\n%ss = 0\nfor y <- map((e) -> e * k, () -> fromto(0, n)) {\ns = s + y\n}\nk = k + 1\nt = 0\nfor y <- map((e) -> e * k + n, () -> fromto(0, n)) {\nt = t + y\n}\n[s, t]\n}", pad(w)))
